@@ -33,11 +33,13 @@ pub fn eval_number(ctx: &mut Ctx, n: u32) {
             }
         }
     }
-    // the raw byte decoder must refuse a stream with an ECI by ECICode (observable behaviour named in the anchors)
+    // the raw byte decoder refuses a stream with an ECI by ECICode on the pinned tree; the statement does not
+    // require that (only malformed designators must be errors), so the outcome is recorded, not judged
     match guard(|| decode_data(&cw)) {
         Err(p) => return ctx.violation("decode_panic", &case(), p),
-        Ok(Err(DataDecodingError::ECICode)) => {}
-        Ok(other) => return ctx.violation("decode_data_with_eci", &case(), format!("{:?}", other.map(|v| v.len()))),
+        Ok(Err(DataDecodingError::ECICode)) => ctx.count("decode_data.wellformed_eci_refused_by_ECICode"),
+        Ok(Err(_)) => ctx.count("decode_data.wellformed_eci_other_error(not judged)"),
+        Ok(Ok(_)) => ctx.count("decode_data.wellformed_eci_accepted(not judged)"),
     }
     ctx.count(&format!("numbers.form{}", des.len()));
     ctx.nontrivial(hash64(format!("n{}", n).as_bytes()));
